@@ -29,7 +29,7 @@ assert_in_tree(tcpc, tcps)
 PID = "C11"
 RULE = ("cases: server kind (plain / TLS) x <= 14 operations (raw client connect, TLS hello leaving the handshake pending, finish "
         "handshake, send, client close, client reset, reconnect from the same source address = replacement, server service) "
-        "ended by server.close(); and hio client histories (plain / TLS client, reopen / connect / close in any order against a "
+        "ended by server.close(), optionally after a first open() that fails because the port is busy; and hio client histories (plain / TLS client, reopen / connect / close in any order against a "
         "harness listener); non-trivial = the server is closed with a handshake pending, or after a replacement, or with >= 2 "
         "accepted connections; for clients: a reopen while connected; distinct = canonical hash")
 ASSUMPTIONS = [
@@ -92,6 +92,24 @@ def run_server_case(case, r):
     inconclusive = 0
     pending_hs = replaced = False
     try:
+        if case.get("busy_first"):
+            # another listener owns the port: the first open fails; what open() created must be released again, by
+            # the failed open itself or at the latest by close()
+            blocker = socket.socket(socket.AF_INET, socket.SOCK_STREAM)
+            blocker.bind(("127.0.0.1", port))
+            blocker.listen(1)
+            try:
+                opened = server.reopen()
+                if not opened:
+                    labels.append("open-failed-port-busy")
+                    server.close()
+                    left0 = {fd: ln for fd, ln in sock_fds().items() if fd not in base and fd != blocker.fileno()}
+                    if left0:
+                        r.fail("C11/failed-open-left-socket-open", "%d socket descriptors open after a failed open() and "
+                               "close(): %r" % (len(left0), sorted(left0.values())))
+                        return
+            finally:
+                blocker.close()
         if not server.reopen():
             r.notes = "server did not open"
             return
@@ -336,7 +354,8 @@ def _server_strategy():
                    st.tuples(st.just("send"), idx, st.integers(1, 2000)).map(list),
                    st.tuples(st.just("close"), idx).map(list), st.tuples(st.just("rst"), idx).map(list),
                    st.tuples(st.just("replace"), idx, st.booleans()).map(list))
-    return st.fixed_dictionaries({"kind": st.just("server"), "tls": st.booleans(), "ops": st.lists(op, min_size=1, max_size=14)})
+    return st.fixed_dictionaries({"kind": st.just("server"), "tls": st.booleans(), "ops": st.lists(op, min_size=1, max_size=14),
+                                  "busy_first": st.sampled_from([False, False, False, True])})
 
 
 def _client_strategy():
